@@ -40,6 +40,39 @@ def gen(rng, tier):
             case = {"op": Sym(op), "ref": T(ref), "trees": [T(t) for t in trees], "threads": threads,
                     "badkind": Sym(bk), "badposs": sorted(rng.sample(range(k), rng.choice([1, 1, 2, 3, min(k, 5), k]))), "tips": rng.random() < 0.5}
             out.append({"sx": sx(case), "meta": {"op": op, "threads": threads, "bad": bk, "ntrees": k, "nbad": len(case["badposs"]) if bk != "none" else 0}})
+    # through the real reader (utils.ReadMultiTrees on a Newick text): a malformed or foreign tree far enough into the
+    # stream for the reader to be a full channel buffer ahead of a consumer that starts late
+    for _ in range({"quick": 16, "thorough": 200, "search": 40}[tier]):
+        ntips = rng.randint(4, 8)
+        ref = g.tree(ntips=ntips, rooted=False, maxdeg=2, lenmode="all", supmode="none")
+        k = rng.choice([3, 9, 11, 12, 14, 25, 40])
+        trees = [ref if rng.random() < 0.3 else g.tree(ntips=ntips, rooted=False, maxdeg=rng.choice([2, 3]), lenmode="all", supmode="none") for _i in range(k)]
+        bk = rng.choice(["parse", "parse", "taxa", "none"])
+        pos = rng.choice([0, 1, k // 2, k - 2, k - 1, min(k - 1, 10), min(k - 1, 11)])
+        for op in ["compare", "weighted", "fbp", "tbe"]:
+            threads = rng.choice([2, 4, 16])
+            case = {"op": Sym(op), "feed": Sym("text"), "delayms": rng.choice([0, 0, 30, 60]), "ref": T(ref), "trees": [T(t) for t in trees],
+                    "threads": threads, "badkind": Sym(bk), "badposs": [pos], "tips": rng.random() < 0.5}
+            out.append({"sx": sx(case), "meta": {"op": op, "threads": threads, "bad": bk, "ntrees": k, "nbad": 1 if bk != "none" else 0, "feed": "text", "delay": case["delayms"]}})
+    # transfer supports with the per-taxon / per-branch transfer tables: bigger references (branches of depth >= 5) and
+    # bootstrap trees that are the reference with a few tips exchanged, so that several branches are close but absent
+    for _ in range({"quick": 10, "thorough": 150, "search": 30}[tier]):
+        ntips = rng.randint(30, 90)
+        ref = g.tree(ntips=ntips, rooted=False, maxdeg=2, lenmode="all", supmode="none")
+        import copy
+        def swapped(t):
+            t2 = copy.deepcopy(t)
+            tl = [n for n in preorder(t2) if not kids(n)]
+            for _s in range(rng.randint(1, 3)):
+                a, b = rng.sample(tl, 2)
+                a["name"], b["name"] = b["name"], a["name"]
+            return t2
+        k = rng.randint(4, 12)
+        trees = [swapped(ref) for _i in range(k)]
+        threads = rng.choice([2, 4, 8, 16])
+        case = {"op": Sym("tbetaxa"), "ref": T(ref), "trees": [T(t) for t in trees], "threads": threads,
+                "badkind": Sym("none"), "badposs": [], "tips": False}
+        out.append({"sx": sx(case), "meta": {"op": "tbetaxa", "threads": threads, "bad": "none", "ntrees": k, "nbad": 0, "ntips": ntips}})
     return out
 
 def extra(tier, seed, st):
@@ -54,7 +87,12 @@ def extra(tier, seed, st):
         return [("race-build", "the -race build of the harness failed: " + outp[-400:], None)], info
     rng = random.Random(seed + 7)
     cases = gen(rng, "quick" if tier == "quick" else "search")
-    cases = [c for c in cases if c["meta"]["threads"] >= 2][: (80 if tier == "quick" else 400)]
+    cases = [c for c in cases if c["meta"]["threads"] >= 2]
+    taxa = [c for c in cases if c["meta"]["op"] == "tbetaxa"]
+    text = [c for c in cases if c["meta"].get("feed") == "text"]
+    plain = [c for c in cases if c["meta"]["op"] != "tbetaxa" and c["meta"].get("feed") != "text"]
+    q = tier == "quick"
+    cases = plain[: (50 if q else 300)] + taxa[: (10 if q else 100)] + text[: (24 if q else 100)]
     inp = "".join("C11\t%d\t%s\n" % (i, c["sx"]) for i, c in enumerate(cases))
     env = dict(os.environ, GORACE="halt_on_error=0")
     p = subprocess.run([racebin], input=inp.encode(), stdout=subprocess.PIPE, stderr=subprocess.PIPE, timeout=1200, env=env)
